@@ -339,10 +339,10 @@ class Desugarer:
                                      "None": lambda x: call_then(fn, [], lambda r: B.agg(RES, "Err", [r]))})
             if short == "or_else" and fnarg(1):
                 fn = fnarg(1)
-                return two_way(adt, {"Some": lambda x: ret_block(B.use(B.mv(x))),
+                return two_way(adt, {"Some": lambda x: ret_block(B.agg(OPT, "Some", [pay(x, OPT, "Some")])),
                                      "None": lambda x: call_into(fn, [])})
             if short == "or" and len(args) == 2:
-                return two_way(adt, {"Some": lambda x: ret_block(B.use(B.mv(x))),
+                return two_way(adt, {"Some": lambda x: ret_block(B.agg(OPT, "Some", [pay(x, OPT, "Some")])),
                                      "None": lambda x: ret_block(eager(args[1]))})
             if short == "map_or" and fnarg(2):
                 fn = fnarg(2)
@@ -352,6 +352,19 @@ class Desugarer:
                 fd, fn = fnarg(1), fnarg(2)
                 return two_way(adt, {"Some": lambda x: call_into(fn, [pay(x, OPT, "Some")]),
                                      "None": lambda x: call_into(fd, [])})
+            if short == "filter" and fnarg(1):
+                # Some(a) if pred(&a) => Some(a), otherwise None
+                fn = fnarg(1)
+
+                def some_arm_f(x):
+                    r = B.local("bool")
+                    ref = B.local()
+                    keep = ret_block(B.agg(OPT, "Some", [pay(x, OPT, "Some")]))
+                    drop_ = ret_block(B.agg(OPT, "None", []))
+                    after = B.block([], B.switch_bool(B.mv(r), keep, drop_))
+                    entry = self.call(B, fn, [B.mv(ref)], r, after, stack)
+                    return B.block([B.assign(ref, {"k": "ref", "mut": False, "place": {"l": x, "p": B.payload(x, OPT, "Some")}})], B.goto(entry))
+                return two_way(adt, {"Some": some_arm_f, "None": lambda x: ret_block(B.agg(OPT, "None", []))})
             if short in ("is_some_and", "is_none_or") and fnarg(1):
                 fn = fnarg(1)
                 return two_way(adt, {"Some": lambda x: call_into(fn, [pay(x, OPT, "Some")]),
